@@ -146,6 +146,7 @@ def r1_r2_r3(run, w):
   names = w.action_types()
   dnames = w.doc_action_names()
   cls = w.repo.cls("docactions.DocActions")
+  unfollowed = []
   for an in dnames:
     if an not in cls.methods:
       run.ob(R1, "docactions.DocActions", an, "DocActions has a method for action type %s" % an,
@@ -175,18 +176,29 @@ def r1_r2_r3(run, w):
     for (n, c) in undo_calls:
       k = undo_ctor_of(fn, c, names, expr=rec_expr[id(c)])
       if k is None:
-        run.ob(R2, fi.qualname, short(c), "undo record holds a recognisable action constructor",
-               False, fi=fi, node=c)
+        # built somewhere the rule cannot see (not: seen and wrong)
+        unfollowed.append("%s: undo record `%s` is not built by a recognisable action "
+                          "constructor" % (fi.qualname, short(c, 70)))
         continue
       kind, ctor = k
       if kind in primary:
         prim_nodes.add(n.id)
-        run.ob(R2, fi.qualname, short(ctor), "inverse kind %s is inverse(%s) with matching "
-               "arguments" % (kind, an), check_ctor_args(fn, an, kind, ctor), fi=fi, node=ctor)
+        r = check_ctor_args(fn, an, kind, ctor)
+        if r is None:
+          unfollowed.append("%s: arguments of `%s` cannot be related to the parameters"
+                            % (fi.qualname, short(ctor, 70)))
+        else:
+          run.ob(R2, fi.qualname, short(ctor), "inverse kind %s is inverse(%s) with matching "
+                 "arguments" % (kind, an), r, fi=fi, node=ctor)
       elif kind in extras:
         extra_nodes.add(n.id)
-        run.ob(R2, fi.qualname, short(ctor), "data-restoring %s names the same table" % kind,
-               first_arg_is_table_param(fn, ctor), fi=fi, node=ctor)
+        r = first_arg_is_table_param(fn, ctor)
+        if r is None:
+          unfollowed.append("%s: table argument of `%s` cannot be related to the parameters"
+                            % (fi.qualname, short(ctor, 70)))
+        else:
+          run.ob(R2, fi.qualname, short(ctor), "data-restoring %s names the same table" % kind,
+                 r, fi=fi, node=ctor)
       else:
         run.ob(R2, fi.qualname, short(ctor), "%s is not an inverse kind of %s" % (kind, an),
                False, fi=fi, node=ctor)
@@ -194,7 +206,8 @@ def r1_r2_r3(run, w):
     sum_nodes = nodes_calling_E(fn, E.is_summary_add_changes)
     # R1: no entry->mutation->normal exit path avoiding the primary inverse
     if not muts:
-      raise AnalysisError("%s: no state mutation recognised (mechanism moved?)" % fi.qualname)
+      unfollowed.append("%s: no state mutation recognised (mechanism moved?)" % fi.qualname)
+      continue
     bad = None
     reach_from_entry = cfg.reach({cfg.entry.id}, removed=prim_nodes)
     for m in sorted(muts):
@@ -236,6 +249,8 @@ def r1_r2_r3(run, w):
              "calc-summary restore is recorded before the primary inverse", before, fi=fi,
              node=cfg.nodes[x].stmt)
     r3_prestate(run, R3, fn, undo_calls, muts)
+  if unfollowed:
+    raise AnalysisError(unfollowed[0])
 
 
 def param_names(fn):
@@ -261,17 +276,34 @@ def _is_param(fn, ctor, e, param):
   """`e` (an argument of ctor) denotes the method's parameter `param`."""
   flow = _flow_of(fn)
   ws = flow.where(ctor)
-  return bool(ws) and flow.itext(e, ws[0], stop=(param,)) == param
+  if not ws:
+    return None
+  ps = param_names(fn)
+  t = flow.itext(e, ws[0], stop=tuple(ps))
+  if t == param:
+    return True
+  # positively something else: another parameter of the method, or a literal
+  if t in ps or isinstance(flow.resolve(e, ws[0])[0], ast.Constant):
+    return False
+  return None      # an expression the rule cannot relate to the parameters
+
+
+def _all3(vals):
+  """Three-valued conjunction: False if any is False, else None if any is None, else True."""
+  vals = list(vals)
+  return False if False in vals else (None if None in vals else True)
 
 
 def _from_param(fn, ctor, e, param):
   """`e` is the parameter or a local computed from it (e.g. the row ids filtered to the rows that
   exist)."""
-  if _is_param(fn, ctor, e, param):
-    return True
+  r = _is_param(fn, ctor, e, param)
+  if r is not None:
+    return r
   flow = _flow_of(fn)
-  return isinstance(e, ast.Name) and \
-      flow.du.flows_from(lambda x: isinstance(x, ast.Name) and x.id == param, e)
+  if flow.du.flows_from(lambda x: isinstance(x, ast.Name) and x.id == param, e):
+    return True
+  return None
 
 
 def first_arg_is_table_param(fn, ctor):
@@ -284,33 +316,42 @@ def first_arg_is_table_param(fn, ctor):
     flow = _flow_of(fn)
     ws = flow.where(ctor)
     if not ws:
-      return False
+      return None
     ls = flow.leaves(a.value, ws[0])
-    return bool(ls) and all(isinstance(l.expr, ast.Call) and nargs(l.expr) >= 1 and
-                            argn(fn.world, fn, l.expr, 0) is not None and
-                            flow.itext(argn(fn.world, fn, l.expr, 0), l.nid, stop=(ps[0],)) == ps[0]
-                            for l in ls)
+    if not ls or not all(isinstance(l.expr, ast.Call) and nargs(l.expr) >= 1 and
+                         argn(fn.world, fn, l.expr, 0) is not None for l in ls):
+      return None
+    return all(flow.itext(argn(fn.world, fn, l.expr, 0), l.nid, stop=(ps[0],)) == ps[0]
+               for l in ls)
   args = _ctor_args(fn, dotted(ctor.func).split(".")[-1], ctor)
-  return bool(args) and _is_param(fn, ctor, args[0], ps[0])
+  if not args:
+    return None
+  return _is_param(fn, ctor, args[0], ps[0])
 
 
 def check_ctor_args(fn, an, kind, ctor):
+  """True / False / None (the arguments cannot be related to the method's parameters)."""
   ps = param_names(fn)
   args = _ctor_args(fn, kind, ctor)
   if an == "RenameColumn":
-    return args is not None and len(args) == 3 and \
-        all(_is_param(fn, ctor, a, p_) for a, p_ in zip(args, [ps[0], ps[2], ps[1]]))
+    if args is None or len(args) != 3:
+      return None
+    return _all3(_is_param(fn, ctor, a, p_) for a, p_ in zip(args, [ps[0], ps[2], ps[1]]))
   if an == "RenameTable":
-    return args is not None and len(args) == 2 and \
-        all(_is_param(fn, ctor, a, p_) for a, p_ in zip(args, [ps[1], ps[0]]))
-  if not first_arg_is_table_param(fn, ctor):
-    return False
+    if args is None or len(args) != 2:
+      return None
+    return _all3(_is_param(fn, ctor, a, p_) for a, p_ in zip(args, [ps[1], ps[0]]))
+  first = first_arg_is_table_param(fn, ctor)
   if an in ("AddColumn", "ModifyColumn", "RemoveColumn"):
-    return args is not None and len(args) >= 2 and _is_param(fn, ctor, args[1], ps[1])
+    if args is None or len(args) < 2:
+      return _all3([first, None])
+    return _all3([first, _is_param(fn, ctor, args[1], ps[1])])
   if an in ("BulkAddRecord", "BulkRemoveRecord", "BulkUpdateRecord"):
     # row ids: the row_ids parameter (possibly rebound to a filtered version of itself)
-    return args is not None and len(args) >= 2 and _from_param(fn, ctor, args[1], ps[1])
-  return True
+    if args is None or len(args) < 2:
+      return _all3([first, None])
+    return _all3([first, _from_param(fn, ctor, args[1], ps[1])])
+  return first
 
 
 def r3_prestate(run, R3, fn, undo_calls, muts):
@@ -389,23 +430,43 @@ def r4_replay_order(run, w):
       return rev, base
     gateways = [(n, c) for (n, c, nm) in calls_E(fn)
                 if E.is_strict_gateway_call(c, nm, fn) and nargs(c) == 1]
-    n_ok = 0
+    n_ok = n_seen = 0
     for (n, c) in gateways:
       a = flow.resolve(argn(w, fn, c, 0), n.id) if argn(w, fn, c, 0) is not None else (None, n.id)
       if not (isinstance(a[0], ast.Call) and endswith(cname(fn, a[0]), "action_from_repr") and
               nargs(a[0]) == 1 and a[0].args):
         continue
       src = flow.loop_source(a[0].args[0], a[1])
+      in_comp = None
+      if src is None and isinstance(a[0].args[0], ast.Name):
+        # replayed from a comprehension evaluated for its effect
+        for e in fn.cfg.nodes[n.id].exprs:
+          for x in walk_no_nested(e):
+            if isinstance(x, (ast.ListComp, ast.GeneratorExp, ast.SetComp)) and \
+                len(x.generators) == 1 and isinstance(x.generators[0].target, ast.Name) and \
+                x.generators[0].target.id == a[0].args[0].id and \
+                any(y is c for y in ast.walk(x.elt)):
+              in_comp = x.generators[0]
+        if in_comp is not None:
+          src = (in_comp.iter, n.id)
       if src is None:
         continue
       rev, base = order_of(src[0], src[1])
       if not (isinstance(base, ast.Name) and base.id == p):
         continue
+      n_seen += 1
       desc = "for %s in %s" % (text(a[0].args[0]), text(src[0]))
       # nothing inside the loop decides whether an action is replayed
-      if rev == want_rev and not flow.facts_inside(n.id, src[1]) and \
-          fn.cfg.dominated_by(fn.cfg.exit.id, {src[1]}):
+      if in_comp is not None:
+        uncond = not in_comp.ifs and not flow.required_facts(n.id)
+      else:
+        uncond = not flow.facts_inside(n.id, src[1]) and \
+            fn.cfg.dominated_by(fn.cfg.exit.id, {src[1]})
+      if rev == want_rev and uncond:
         n_ok += 1
+    if not n_seen:
+      raise AnalysisError("%s: no replay of the parameter through action_from_repr and the "
+                          "gateway recognised" % fn.qualname)
     ok = n_ok == 1 and len(gateways) == 1
     run.ob(R4, fn.qualname, desc, "%s order, decode, gateway" %
            ("reversed" if want_rev else "forward"), ok, fi=fn.fi)
@@ -471,8 +532,14 @@ def r5_rollback_trim(run, w):
             endswith(ut.aliases.dotted(t.value) or "", *["out_actions." + a for a in lists]):
           dels[t.value.attr] = cp_field(t.slice.lower, n.id)
           del_nodes.add(n.id)
+  if not dels:
+    raise AnalysisError("_undo_to_checkpoint: no `del out_actions.<list>[<length>:]` found "
+                        "(trimming moved?)")
   for a in lists:
     want = "stored" if a == "direct" else a
+    if a in dels and dels[a] is None:
+      raise AnalysisError("_undo_to_checkpoint: cannot tell which checkpointed length "
+                          "out_actions.%s is cut at" % a)
     ok = a in dels and dels[a] == want
     run.ob(R5, ut.qualname, "del out_actions.%s[...]" % a,
            "list %s is truncated at the checkpointed length of %s" % (a, want), ok, fi=ut.fi)
@@ -485,6 +552,9 @@ def r5_rollback_trim(run, w):
             endswith(ut.aliases.dotted(x.value) or "", "out_actions.undo") and \
             isinstance(x.slice, ast.Slice):
           slice_nodes.add(n.id)
+          if x.slice.lower is not None and cp_field(x.slice.lower, n.id) is None:
+            raise AnalysisError("_undo_to_checkpoint: cannot tell where the undo slice `%s` "
+                                "starts" % short(x))
           len_ok = x.slice.lower is not None and cp_field(x.slice.lower, n.id) == "undo" \
               and x.slice.upper is None and x.slice.step is None
           run.ob(R5, ut.qualname, short(x), "undo slice starts at the checkpointed undo length",
@@ -532,9 +602,56 @@ def r6_modify_reorder(run, w):
           if isinstance(last, ast.Subscript) and text(last.slice) == "-1" and \
               endswith(cname(fn, xflow.inline(last.value, a.id)) or "", "out_actions.undo"):
             asserts.add(a.id)
+    def is_modify_test(e, i):
+      t_ = xflow.resolve(e, i)[0]
+      if not (isinstance(t_, ast.Call) and dotted(t_.func) == "isinstance" and
+              len(t_.args) == 2 and endswith(dotted(t_.args[1]), "ModifyColumn")):
+        return False
+      last_ = xflow.resolve(t_.args[0], i)[0]
+      return isinstance(last_, ast.Subscript) and text(last_.slice) == "-1" and \
+          endswith(cname(fn, xflow.inline(last_.value, i)) or "", "out_actions.undo")
+    checked = (bool(asserts) and cfg.dominated_by(n.id, asserts)) or \
+        xflow.guarded(n.id, is_modify_test, True)
+    if not checked and not asserts:
+      raise AnalysisError("doModifyColumn: no check that undo[-1] is the ModifyColumn inverse "
+                          "recognised before the pop")
     run.ob(R6, fn.qualname, "assert isinstance(undo[-1], ModifyColumn)",
            "the pop is dominated by the check that the popped action is the ModifyColumn inverse",
-           bool(asserts) and cfg.dominated_by(n.id, asserts), fi=fn.fi, node=n.stmt)
+           checked, fi=fn.fi, node=n.stmt)
+
+
+def delta_builders(w, fn, p_delta):
+  """Functions that build an update action from the column delta by an index parameter --
+  `<delta>[r][<param>]` -- whether written as a closure of fn (capturing the delta) or as a
+  method / module-level function taking the delta explicitly:
+  [{name, fi_or_node, params, idx, delta (param name or None when captured)}]."""
+  from ._h_E import callgraph
+  cands = {}
+  for s in ast.walk(fn.node):
+    if isinstance(s, ast.FunctionDef) and s is not fn.node:
+      cands[s.name] = (s, [a.arg for a in s.args.args], True)
+  cg = callgraph(w)
+  for (n, c, nm) in calls_E(fn):
+    for t in cg.resolve(fn, c):
+      if t.parent is None and t.qualname != fn.qualname and t.module is fn.fi.module:
+        ps = t.params()
+        if t.cls is not None:
+          ps = ps[1:]
+        cands.setdefault(t.name, (t.node, ps, False))
+  out = []
+  for name, (node, ps, closure) in cands.items():
+    for x in ast.walk(node):
+      if isinstance(x, ast.Subscript) and isinstance(x.value, ast.Subscript) and \
+          isinstance(x.value.value, ast.Name) and isinstance(x.slice, ast.Name) and \
+          x.slice.id in ps:
+        d = x.value.value.id
+        if closure and d == p_delta and d not in ps:
+          out.append({"name": name, "node": node, "params": ps, "idx": x.slice.id, "delta": None})
+          break
+        if d in ps:
+          out.append({"name": name, "node": node, "params": ps, "idx": x.slice.id, "delta": d})
+          break
+  return out
 
 
 def r7_delta_direction(run, w):
@@ -543,38 +660,81 @@ def r7_delta_direction(run, w):
   fn = w.fn("action_summary.ActionSummary._changes_to_actions")
   ps = fn.fi.params()
   p_tid, p_cid, p_delta, p_stored, p_undo = ps[1], ps[2], ps[3], ps[4], ps[5]
-  # the local closure building an update action from delta index
-  inner = [s for s in fn.node.body if isinstance(s, ast.FunctionDef)]
-  if len(inner) != 1:
-    raise AnalysisError("_changes_to_actions: expected exactly one local helper")
-  ua = inner[0]
-  ua_params = [a.arg for a in ua.args.args]
-  # which parameter indexes the delta pair: column_delta[r][<param>]
-  idx_param = None
-  for n in ast.walk(ua):
-    if isinstance(n, ast.Subscript) and isinstance(n.value, ast.Subscript) and \
-        isinstance(n.value.value, ast.Name) and n.value.value.id == p_delta and \
-        isinstance(n.slice, ast.Name) and n.slice.id in ua_params:
-      idx_param = n.slice.id
-  run.ob(R7, fn.qualname, "%s: values = [%s[r][<index param>]]" % (ua.name, p_delta),
-         "helper selects before/after by an index parameter", idx_param is not None, fi=fn.fi,
-         node=ua)
-  if idx_param is None:
-    return
-  ipos = ua_params.index(idx_param)
   flow = _flow_of(fn)
-  def bound(call):
-    """{param: expr} of a call of the local helper (positional or keyword)."""
-    if any(isinstance(a, ast.Starred) for a in call.args) or len(call.args) > len(ua_params):
+  du = flow.du
+  cfg = fn.cfg
+  builders = {b["name"]: b for b in delta_builders(w, fn, p_delta)}
+  if builders:
+    b0 = sorted(builders.values(), key=lambda b: b["name"])[0]
+    run.ob(R7, fn.qualname, "%s: values = [%s[r][<index param>]]" % (b0["name"], p_delta),
+           "helper selects before/after by an index parameter", True, fi=fn.fi, node=b0["node"])
+  else:
+    run.ob(R7, fn.qualname, "values = [%s[r][<0 or 1>]] built where the action is emitted" % p_delta,
+           "before/after is selected by a constant index at each emission", True, fi=fn.fi,
+           nontrivial=False)
+
+  def bind(call, b):
+    params = b["params"]
+    if any(isinstance(a, ast.Starred) for a in call.args) or len(call.args) > len(params):
       return None
-    out = dict(zip(ua_params, call.args))
+    out = dict(zip(params, call.args))
     for k in call.keywords:
-      if k.arg is None or k.arg not in ua_params or k.arg in out:
+      if k.arg is None or k.arg not in params or k.arg in out:
         return None
       out[k.arg] = k.value
     return out
+
+  def is_orig(v, k):
+    return isinstance(v, ast.Call) and isinstance(v.func, ast.Attribute) and \
+        v.func.attr == "original_name"
+
+  def const_int(e, k):
+    e = flow.resolve(e, k)[0]
+    if isinstance(e, ast.Constant) and isinstance(e.value, int) and not isinstance(e.value, bool):
+      return e.value
+    return None
+
+  def indices_of(value, nid):
+    """(set of delta indices the written value is built from, pre-rename names used?) or None
+    when the construction cannot be followed."""
+    ks, names_ok = set(), True
+    for l in flow.leaves(value, nid):
+      e = l.expr
+      callee = dotted(e.func).split(".")[-1] if isinstance(e, ast.Call) and dotted(e.func) else None
+      if callee in builders:
+        b = builders[callee]
+        bd = bind(e, b)
+        if bd is None or b["idx"] not in bd:
+          return None
+        if b["delta"] is not None and (b["delta"] not in bd or
+                                       flow.itext(bd[b["delta"]], l.nid, stop=ps) != p_delta):
+          return None
+        k = const_int(bd[b["idx"]], l.nid)
+        if k is None:
+          return None
+        ks.add(k)
+        extra = [bd.get(p_) for p_ in b["params"][b["params"].index(b["idx"]) + 1:]]
+        names_ok = names_ok and len(extra) == 2 and all(
+          x is not None and flow.denotes(x, l.nid, is_orig) for x in extra)
+        continue
+      # built in place: look for <delta>[r][<constant>] in what feeds the value
+      found = set()
+      for (root, _k) in flow.feeding(e, l.nid):
+        for x in ast.walk(root):
+          if isinstance(x, ast.Subscript) and isinstance(x.value, ast.Subscript) and \
+              isinstance(x.value.value, ast.Name) and x.value.value.id == p_delta:
+            k = x.slice.value if isinstance(x.slice, ast.Constant) else None
+            if not isinstance(k, int) or isinstance(k, bool):
+              return None
+            found.add(k)
+      if not found:
+        return None
+      ks |= found
+      names_ok = names_ok and du.flows_from(lambda v: is_orig(v, None), e)
+    return ks, names_ok
+
   n_st = n_un = n_front = 0
-  cfg = fn.cfg
+  unfollowed = []
   for (n, c, nm) in calls_E(fn):
     if nm in (p_stored + ".append", p_undo + ".append", p_undo + ".insert",
               p_stored + ".insert", p_stored + ".extend", p_undo + ".extend"):
@@ -586,31 +746,13 @@ def r7_delta_direction(run, w):
         pos_ok = isinstance(pos, ast.Constant) and pos.value == 0 and \
             not isinstance(pos.value, bool)
         args = args[1:]
-      ls = flow.leaves(args[0], n.id) if args else []
-      if not ls or not all(isinstance(l.expr, ast.Call) and dotted(l.expr.func) == ua.name
-                           for l in ls):
-        run.ob(R7, fn.qualname, short(c), "value written to the out list comes from the helper",
-               False, fi=fn.fi, node=c)
+      got = indices_of(args[0], n.id) if args else None
+      if got is None:
+        unfollowed.append(short(c))
         continue
+      ks, names_ok = got
       want = 1 if nm.startswith(p_stored + ".") else 0
-      ok = True
-      names_ok = True
-      for l in ls:
-        b_ = bound(l.expr)
-        if b_ is None:
-          ok = False
-          continue
-        idx = flow.resolve(b_[idx_param], l.nid)[0] if idx_param in b_ else None
-        ok = ok and isinstance(idx, ast.Constant) and idx.value == want and \
-            not isinstance(idx.value, bool)
-        if front:
-          # front restores use names obtained from original_name()
-          extra = [b_.get(p_) for p_ in ua_params[ipos + 1:]]
-          names_ok = names_ok and len(extra) == 2 and all(
-            e is not None and flow.denotes(e, l.nid, lambda v, k: isinstance(v, ast.Call) and
-                                           isinstance(v.func, ast.Attribute) and
-                                           v.func.attr == "original_name")
-            for e in extra)
+      ok = ks == {want}
       if front:
         n_front += 1
         ok = ok and pos_ok and names_ok and nm.startswith(p_undo + ".")
@@ -622,9 +764,12 @@ def r7_delta_direction(run, w):
              "%s receives delta index %d%s" % ("stored" if want else "undo", want,
                                                " at the front, pre-rename names" if front else ""),
              ok, fi=fn.fi, node=c)
-  run.ob(R7, fn.qualname, "stored/undo/front emitters present",
-         "one stored emitter, one undo emitter, one front restore", n_st >= 1 and n_un >= 1 and
-         n_front >= 1, fi=fn.fi, nontrivial=False)
+  if unfollowed:
+    raise AnalysisError("_changes_to_actions: cannot follow how the action written by `%s` is "
+                        "built from the column delta" % unfollowed[0])
+  if not (n_st and n_un and n_front):
+    raise AnalysisError("_changes_to_actions: stored / undo / front-restore writes to the out "
+                        "lists not all found (%d/%d/%d)" % (n_st, n_un, n_front))
   # original_name() reads happen before table_id/col_id are rewritten by root_name()
   orig_nodes = nodes_calling_E(fn, lambda c, nm, f: endswith(nm, "original_name"))
   rewrite = set()
@@ -632,7 +777,9 @@ def r7_delta_direction(run, w):
     if n.kind == "stmt" and isinstance(n.stmt, ast.Assign) and \
         isinstance(n.stmt.targets[0], ast.Name) and n.stmt.targets[0].id in (p_tid, p_cid):
       rewrite.add(n.id)
-  ok = bool(orig_nodes) and not (cfg.reach_after(rewrite) & orig_nodes)
+  if not orig_nodes:
+    raise AnalysisError("_changes_to_actions: no original_name() call found")
+  ok = not (cfg.reach_after(rewrite) & orig_nodes)
   run.ob(R7, fn.qualname, "original_name() before root_name() rewrite",
          "pre-rename names are resolved before table_id/col_id are rewritten", ok, fi=fn.fi)
 
